@@ -239,7 +239,9 @@ def expand(template_path, repo, vacuity=False):
             unit.name = d.split()[1]
             i += 1
             continue
-        if d.startswith("TYPE"):
+        if d.startswith("TYPE") or d.startswith("CONST"):
+            if d.startswith("CONST"):
+                d = "TYPE " + d[5:].split("|")[0] + "| const |" + d[5:].split("|")[1]
             parts = [p.strip() for p in d[4:].split("|")]
             rel, kind, name = parts[0], parts[1], parts[2]
             opts = parts[3:]
@@ -252,6 +254,9 @@ def expand(template_path, repo, vacuity=False):
             text = sf.text[a:b]
             if "pubfields" in opts:
                 text = _pubfields(sf, kw, en, a)
+            if kind == "const":
+                # `const X: &str` is implicitly 'static; Verus (which turns consts into functions) wants it spelled out
+                text = re.sub(r":\s*&\s*str\b", ": &'static str", text, count=1)
             unit.segs.append(Seg(text + "\n", "repo" if "pubfields" not in opts else "edit",
                                  {"file": rel, "off": a, "src": sf.text, "fn": kind + " " + name,
                                   "edit": "pubfields", "tline": i + 1}))
@@ -482,4 +487,5 @@ def _emit_fn(unit, repo, rel, scope, name, opts, flags, contract, directives, va
         "kf": opts.get("kf"),
         "novac": "novac" in flags,
         "vac_copy": "vac_copy" in flags,
+        "calls": sorted({toks[k].text for k in range(ob, cb) if toks[k].kind == "id" and toks[k + 1].text == "("}),
     })
